@@ -342,6 +342,11 @@ func (b *EvaluationKeys) ReadFrom(r io.Reader) (n int64, err error) {
 			}
 
 			n += inc
+		} else if hasKey == 0 {
+			// The key set of a value previously held by the receiver must not survive.
+			b.MemEvaluationKeySet = nil
+		} else {
+			return n, fmt.Errorf("invalid evaluation key set presence byte %d", hasKey)
 		}
 
 		return n, nil
@@ -395,6 +400,8 @@ func readEvkKey(r buffer.Reader) (key *rlwe.EvaluationKey, n int64, err error) {
 		}
 
 		n += inc
+	} else if hasKey != 0 {
+		return nil, n, fmt.Errorf("invalid evaluation key presence byte %d", hasKey)
 	}
 	return
 }
